@@ -35,7 +35,7 @@
    No well-formedness condition on the configuration is needed. *)
 From Coq Require Import List ZArith NArith Bool.
 From PC.Base Require Import Assoc.
-From PC.Sup Require Import Model Monitors MonC12w Check Sim RelC03 RelC03b RelC03x ExC03.
+From PC.Sup Require Import Model Monitors MonC12w Check Sim RelC03 RelC03b RelC03x ExC03 EnC03.
 Import ListNotations.
 
 Theorem C03_main_partial : forall cs ord evs s,
@@ -116,3 +116,49 @@ Example C03_nonvacuous :
   holds_C03 c03_cs evs_c03_ok = true /\ length evs_c03_ok = 53%nat /\
   In (5%N, EShutdownEnd) evs_c03_ok /\ In (3%N, ELaunch true) evs_c03_ok.
 Proof. exact c03_nonvacuous. Qed.
+
+(* ---- ENABLEDNESS facts (the liveness half of C03 presupposes that the calls return; these are NOT liveness
+   theorems: no fairness, no termination argument - they say that in every state reached by an accepted history
+   the step in question is possible, i.e. the model is not stuck there).
+   `step s (th, e) = Some s'` : thread th can perform trace point e in state s (its pending release is flushed first). *)
+
+(* ShutDownProject is not blocked at its end: once every instance of the snapshot has gone through onProcessEnd
+   (`all_done`, the model's guard = waitForCompletion of every process), shutdown_end is possible - for the ordered
+   variant (DWaitAll) and for the sequential loop when it has run out (DLoop order []). *)
+Theorem C03_shutdown_can_end : forall cs ord evs s th order,
+  accept (init cs ord) evs = Some s ->
+  dpc (get_thread s th) = DWaitAll order \/ dpc (get_thread s th) = DLoop order [] ->
+  all_done s order = true ->
+  exists s', step s (th, EShutdownEnd) = Some s'.
+Proof. exact en_shutdown_can_end. Qed.
+Print Assumptions C03_shutdown_can_end.
+
+(* A thread inside stopProcess (between stop_enter and stop_return, whichever branch: running -> Terminating ->
+   signal, or Pending -> onProcessEnd(Terminating), or neither) always has a next step. *)
+Theorem C03_stop_not_stuck : forall cs ord evs s th i,
+  accept (init cs ord) evs = Some s ->
+  stop_on (spc (get_thread s th)) = Some i ->
+  exists e s', step s (th, e) = Some s'.
+Proof. exact en_stop_not_stuck. Qed.
+Print Assumptions C03_stop_not_stuck.
+
+(* A stopped process is not stuck: (i) when its command has exited (after the stop signal or by itself) the
+   instance's goroutine exists and can collect the exit code; (ii) once a stop was requested (isStopped flag) the
+   restart decision is "no" and the instance goes to onProcessEnd(Completed) - it does not relaunch; (iii) a goroutine
+   sleeping in its back-off whose run context was cancelled by a stop can leave the sleep. *)
+Theorem C03_stopped_instance_ends : forall cs ord evs s i x c,
+  accept (init cs ord) evs = Some s -> get i (insts s) = Some x ->
+  (pc x = IAlive -> exited x = Some c ->
+     exists th s', get th (thinst s) = Some i /\ step s (th, EWaitReturn c) = Some s') /\
+  (pc x = ICodeWritten c -> f_stopped x = true ->
+     exists th s' x', get th (thinst s) = Some i /\ step s (th, ERestartDecision false) = Some s' /\
+                      get i (insts s') = Some x' /\ pc x' = IEnding SCompleted c) /\
+  (pc x = IBackoff c -> l_runctx x = true ->
+     exists th s', get th (thinst s) = Some i /\ step s (th, EBackoffCancelled) = Some s').
+Proof.
+  intros cs ord evs s i x c Hacc Hx. repeat split; intros.
+  - eapply en_exit_collected; eauto.
+  - eapply en_stopped_no_restart; eauto.
+  - eapply en_backoff_cancelled; eauto.
+Qed.
+Print Assumptions C03_stopped_instance_ends.
